@@ -37,8 +37,12 @@ CHECKS = {
     'C12': dict(ready=True, technique='TLC trace validation of reward/termination evaluations (Trace_Reward) against GVRewards + agreement invariants in MC_Step',
                 text='Every registered reward and termination component, with default and random decimal parameters and in composites, is evaluated by the real code on triples (real successors and arbitrary next states) and compared exactly (milli-units) with the specification; agreement clauses are checked on the code values and model-checked on the specification.',
                 note='distance components only where their documented precondition holds; bump_into_wall only where the agent does not stand on a blocking cell or the action is a move'),
-    'C13': dict(ready=False, technique='', text='', note=''),
-    'C14': dict(ready=False, technique='', text='', note=''),
+    'C13': dict(ready=True, technique='TLC trace validation of reset records against WellFormed/Honourable/MustAccept of GVReset (Trace_Reset), incl. all outputs via EnumeratingRNG for small shapes',
+                text='All eight reset functions are called through the registry factory over shapes 1x1..8x8 (13x13 thorough), all flags, layouts (0..4)^2, counts and colour sets x seeds, and for small shapes on every resolution of their random choices; TLC checks every returned state against the declarative well-formedness predicate of its function and every refusal against the allowed error type and the documented domain.',
+                note='a function may refuse parameters it could have honoured, except its documented domain (MustAccept); generative sets Init_<f> are used for drift only'),
+    'C14': dict(ready=True, technique='TLC breadth-first search of the specification dynamics from all states of Init_<f>(p) and from logged initial states (MC_Win); plans replayed on the real step function',
+                text='For small members of every reset family TLC searches from every state of the generative set; for all 21 shipped configurations from initial states produced by the real reset functions over seeds. Every plan found for a logged origin is replayed on the real transition and termination functions; an origin without a plan is re-searched on the real step function before it is reported and matched against the listed known finding (F8).',
+                note='random outcomes are part of the existential; search depth bounded (60/120 actions); memory_rooms small members use fixed colours/orientation'),
     'C15': dict(ready=False, technique='', text='', note=''),
     'C16': dict(ready=False, technique='', text='', note=''),
     'C17': dict(ready=False, technique='', text='', note=''),
